@@ -628,6 +628,10 @@ class _ParseFunction(_nt('_ParseFunction', 'func, args, kwargs')):
     def __call__(self, ${ctx}_text, _pos):
         return self.func(${ctx}_text, _pos, *self.args, **dict(self.kwargs))
 
+    def __hash__(self):
+        # The arguments may be unhashable values, like lists.
+        return _hash(tuple(self))
+
 
 class _StringLiteral(str):
     def __call__(self, ${ctx}_text, _pos):
